@@ -16,7 +16,7 @@ LEVEL_RULE = (
 )
 EXHAUSTIVE_SUBDOMAINS = ["37 legal character codes x 8 positions x {ADS-B, BDS 2,0}", "TC 1-4 x category 0-7"]
 ASSUMPTIONS = ["six-bit alphabet per Annex 10: A-Z = 1..26, space = 32, 0-9 = 48..57"]
-REQUIRED = ["header_bits_recur_inside_identification", "first_identifications_again_after_70k_others", "adsb", "bds20", "independence", "df17", "df18", "df20", "df21"] + ["tc%d" % t for t in (1, 2, 3, 4)]
+REQUIRED = ["header_bits_recur_inside_identification", "identification_hex_from_two_digit_alphabet", "first_identifications_again_after_70k_others", "adsb", "bds20", "independence", "df17", "df18", "df20", "df21"] + ["tc%d" % t for t in (1, 2, 3, 4)]
 
 ALPHA = {**{chr(64 + i): i for i in range(1, 27)}, " ": 32, **{str(d): 48 + d for d in range(10)}}
 LEGAL = sorted(ALPHA)
@@ -184,6 +184,28 @@ def cases(ctx):
                              "ch2": rng.choice(LEGAL), "lower": False}
                         yield "adsb", c
                         yield "bds20", dict(c, df=rng.choice((20, 21)))
+            i += 1
+    # identifications whose 12 hex digits come from a TWO-digit alphabet ("111111111111" = DQDQDQDQ, "444444444444" = QDQDQDQD ...):
+    # a field of such a frame looks like a bit string, a decimal number, a repeated character - whatever a helper sniffs for
+    inv = {v: k for k, v in ALPHA.items()}
+    digs = "01248FA5"
+    for a_ in range(len(digs)):
+        for b_ in range(a_ + 1, len(digs)):
+            if ctx.mine(i):
+                found = []
+                for mask in range(4096):
+                    hx12 = "".join(digs[b_] if (mask >> (11 - q)) & 1 else digs[a_] for q in range(12))
+                    v = int(hx12, 16)
+                    chars = [(v >> (42 - 6 * q)) & 63 for q in range(8)]
+                    if all(c_ in inv for c_ in chars):
+                        found.append("".join(inv[c_] for c_ in chars))
+                rng.shuffle(found)
+                for s8 in found[:120]:
+                    c = {"cs": s8, "tc": rng.randrange(1, 5), "cat": rng.randrange(8), "df": rng.choice((17, 18)), "pos": rng.randrange(8), "ch2": rng.choice(LEGAL)}
+                    yield "adsb", c
+                    yield "bds20", dict(c, df=rng.choice((20, 21)))
+                if found:
+                    ctx.hit("identification_hex_from_two_digit_alphabet", min(len(found), 120))
             i += 1
     for carrier in ("bds20", "adsb"):
         if ctx.mine(i):
